@@ -247,6 +247,7 @@ Proof.
     rewrite Hc. apply (RL id0 c0 HL').
   - destruct D.
   - destruct D.
+  - (* Reject *) cbn [step] in E. injection E as <- _. apply Frame; reflexivity.
 Qed.
 
 (* every disciplined history: host, store and specification agree on every contract that
